@@ -181,7 +181,7 @@ impl Engine for EnvEngine {
                 let en = self.e05_quick.total + if thorough { self.e05_thorough.total } else { 0 };
                 (en, rnd.unwrap_or(if thorough { 3_000_000 } else { 60_000 }))
             }
-            EnvProp::C07 => (0, rnd.unwrap_or(if thorough { 3_000_000 } else { 60_000 })),
+            EnvProp::C07 => (0, rnd.unwrap_or(if thorough { 1_000_000 } else { 60_000 })),
             EnvProp::C08 => {
                 let en = self.e08_has.items.len() as u64 + self.e08_co.total;
                 (en, rnd.unwrap_or(if thorough { 3_000_000 } else { 60_000 }))
